@@ -43,8 +43,10 @@ Definition set_kill (w : world) (k : option nat) : world :=
   {| wfs := wfs w; wnow := wnow w; woff := woff w; wfaults := wfaults w; wkill := k; werrs := werrs w;
      wlink := wlink w; wacts := wacts w |}.
 Definition report (e : ecode) (w : world) : world :=
+  (* a dead process reports nothing *)
+  match wkill w with Some O => w | _ =>
   {| wfs := wfs w; wnow := wnow w; woff := woff w; wfaults := wfaults w; wkill := wkill w; werrs := werrs w ++ [e];
-     wlink := wlink w; wacts := wacts w |}.
+     wlink := wlink w; wacts := wacts w |} end.
 Definition set_link (w : world) (l : option bytes) : world :=
   {| wfs := wfs w; wnow := wnow w; woff := woff w; wfaults := wfaults w; wkill := wkill w; werrs := werrs w;
      wlink := l; wacts := wacts w |}.
@@ -59,12 +61,27 @@ Definition set_acts (w : world) (n : nat) : world :=
 Definition tick (w : world) : bool * world :=
   match wfaults w with [] => (false, w) | b :: r => (b, set_faults w r) end.
 
+(* wkill = Some (S k): k further effects happen, the one after them is the kill point; Some 0: the process is dead *)
 Definition alive (w : world) : bool := match wkill w with Some O => false | _ => true end.
-(* an effect on the file system: happens only while the process is alive, and uses up one kill point *)
+Definition kill_step (w : world) : option (option nat) :=      (* None: dies here; Some k': the effect happens *)
+  match wkill w with
+  | Some O => None
+  | Some (S O) => None
+  | Some (S (S k)) => Some (Some (S k))
+  | None => Some None
+  end.
+(* an effect on the file system: happens only while the process is alive; at the kill point the process dies
+   instead of performing it *)
 Definition effect (w : world) (g : fs -> fs) : world :=
-  if alive w then set_kill (set_fs w (g (wfs w))) (match wkill w with Some (S k) => Some k | x => x end) else w.
+  match kill_step w with
+  | Some k' => set_kill (set_fs w (g (wfs w))) k'
+  | None => set_kill w (match wkill w with None => None | Some _ => Some O end)
+  end.
 Definition effect_link (w : world) (l : option bytes) : world :=
-  if alive w then set_kill (set_link w l) (match wkill w with Some (S k) => Some k | x => x end) else w.
+  match kill_step w with
+  | Some k' => set_kill (set_link w l) k'
+  | None => set_kill w (match wkill w with None => None | Some _ => Some O end)
+  end.
 
 Inductive rres := ROk | RNotFound | RErr.
 
